@@ -1,0 +1,536 @@
+//go:build verif
+
+// Contracts for the verifier in /verif (comment-only file; compiled only with -tags verif).
+//
+// PART 1: property C08 / C02 for the list-valued extension encoders (ALPN, ALPS, key_share,
+// pre_shared_key, quic_transport_parameters).  The entry offsets of a list of variable-length
+// entries have no closed form, so (pattern "walk function" of /verif/CONTRACTS.md) every clause is
+// stated relative to an uninterpreted offset function: for EVERY function pos that satisfies the
+// recurrence pos(0) == first offset, pos(j+1) == pos(j) + size of entry j, Len() == pos(n) and
+// Read() writes entry j at pos(j).  Conventions as in verif_contracts_ext_b.go (`hdr` with the
+// modulus the code applies, `wire` without it under the wire limits of the type).
+//
+// PART 2: the marshal chain (C01, C02, C05): writeHandshakeRecord, MarshalClientHelloNoECH,
+// MarshalClientHello.
+
+package tls
+
+// ---------------------------------------------------------------------------------------------
+// application_layer_protocol_negotiation (16): type, be16(2+m), be16(m), then per protocol
+// byte(len(s)) ++ s, where m = sum of (1+len(s)).  alpnEnc(j) = offset of the length byte of entry j.
+
+//@ uf alpnEnc(Int) Int
+//@ spec alpnEncWalk(ps) = alpnEnc(0) == 6 && forall j in 0..len(ps): alpnEnc(j+1) == alpnEnc(j) + 1 + len(ps[j])
+
+//@ func (*ALPNExtension).Len
+//@   property C08 C02
+//@   let n = len(e.AlpnProtocols)
+//@   requires e != nil
+//@   requires walk: alpnEncWalk(e.AlpnProtocols)
+//@   note walk: alpnEnc is an arbitrary function satisfying the recurrence of the entry offsets (one always exists), so the clauses hold for THE offsets of the encoding
+//@   pure
+//@   ensures total: ret == alpnEnc(n)
+//@   ensures mono: forall j in 0..n: 6 <= alpnEnc(j) && alpnEnc(j+1) <= ret
+//@   ensures lower: ret >= 6 + n
+//@   ensures empty: n == 0 ==> ret == 6
+//@   ensures one: n == 1 ==> ret == 7 + len(e.AlpnProtocols[0])
+//@   loop 0 invariant -1 <= $rangeindex && $rangeindex < n
+//@   loop 0 invariant bLen == alpnEnc($k) && bLen >= 6 + $k
+//@   loop 0 invariant forall j in 0..$k: 6 <= alpnEnc(j) && alpnEnc(j+1) <= alpnEnc($k)
+
+//@ func (*ALPNExtension).Read
+//@   property C08 C02
+//@   let n = len(e.AlpnProtocols)
+//@   let L = alpnEnc(n)
+//@   let b0 = b
+//@   requires e != nil
+//@   requires walk: alpnEncWalk(e.AlpnProtocols)
+//@   modifies b[0..L]
+//@   ensures short: len(b) < L ==> ret0 == 0 && ret1 == io.ErrShortBuffer && unchanged(b)
+//@   ensures ok: len(b) >= L ==> ret0 == L && ret1 == io.EOF
+//@   ensures hdr: len(b) >= L ==> b[0] == 0 && b[1] == 16 && b[2]*256+b[3] == (L-4) % 65536 && b[4]*256+b[5] == (L-6) % 65536
+//@   ensures wire: len(b) >= L && L <= 65539 ==> b[2]*256+b[3] == L-4 && b[4]*256+b[5] == L-6
+//@   ensures entlen: len(b) >= L ==> forall j in 0..n: b[alpnEnc(j)] == len(e.AlpnProtocols[j]) % 256
+//@   note entlen: the one-byte name length is byte(len(s)): it equals len(s) only for len(s) <= 255 (the code does not check)
+//@   ensures entbytes: len(b) >= L ==> forall j in 0..n: forall k in 0..len(e.AlpnProtocols[j]): b[alpnEnc(j)+1+k] == e.AlpnProtocols[j][k]
+//@   loop 0 invariant -1 <= $rangeindex && $rangeindex < n
+//@   loop 0 invariant arr(b) == arr(b0) && off(b) == off(b0) + alpnEnc($k) && len(b) == len(b0) - alpnEnc($k) && stringsLength == alpnEnc($k) - 6
+//@   loop 0 invariant b0[0] == 0 && b0[1] == 16
+//@   loop 0 invariant forall j in 0..$k: b0[alpnEnc(j)] == len(e.AlpnProtocols[j]) % 256
+//@   loop 0 invariant forall j in 0..$k: forall k in 0..len(e.AlpnProtocols[j]): b0[alpnEnc(j)+1+k] == e.AlpnProtocols[j][k]
+//@   loop 0 invariant forall j in 0..$k: 6 <= alpnEnc(j) && alpnEnc(j+1) <= alpnEnc($k)
+
+// ---------------------------------------------------------------------------------------------
+// application_settings (17513 = 0x4469, new code point 17613 = 0x44cd): the same layout as ALPN
+// with the code point taken from e.codePoint, which the two public wrappers set before encoding.
+
+//@ func (*applicationSettingsExtension).Len
+//@   property C08 C02
+//@   let n = len(supportedProtocols)
+//@   requires walk: alpnEncWalk(supportedProtocols)
+//@   pure
+//@   ensures total: ret == alpnEnc(n)
+//@   ensures mono: forall j in 0..n: 6 <= alpnEnc(j) && alpnEnc(j+1) <= ret
+//@   ensures lower: ret >= 6 + n
+//@   ensures empty: n == 0 ==> ret == 6
+//@   ensures one: n == 1 ==> ret == 7 + len(supportedProtocols[0])
+//@   loop 0 invariant -1 <= $rangeindex && $rangeindex < n
+//@   loop 0 invariant bLen == alpnEnc($k) && bLen >= 6 + $k
+//@   loop 0 invariant forall j in 0..$k: 6 <= alpnEnc(j) && alpnEnc(j+1) <= alpnEnc($k)
+
+//@ func (*applicationSettingsExtension).Read
+//@   property C08 C02
+//@   let n = len(supportedProtocols)
+//@   let L = alpnEnc(n)
+//@   let b0 = b
+//@   requires e != nil
+//@   requires walk: alpnEncWalk(supportedProtocols)
+//@   modifies b[0..L]
+//@   ensures short: len(b) < L ==> ret0 == 0 && ret1 == io.ErrShortBuffer && unchanged(b)
+//@   ensures ok: len(b) >= L ==> ret0 == L && ret1 == io.EOF
+//@   ensures hdr: len(b) >= L ==> b[0]*256+b[1] == e.codePoint && b[2]*256+b[3] == (L-4) % 65536 && b[4]*256+b[5] == (L-6) % 65536
+//@   ensures wire: len(b) >= L && L <= 65539 ==> b[2]*256+b[3] == L-4 && b[4]*256+b[5] == L-6
+//@   ensures entlen: len(b) >= L ==> forall j in 0..n: b[alpnEnc(j)] == len(supportedProtocols[j]) % 256
+//@   note entlen: the one-byte name length is byte(len(s)): it equals len(s) only for len(s) <= 255 (the code does not check)
+//@   ensures entbytes: len(b) >= L ==> forall j in 0..n: forall k in 0..len(supportedProtocols[j]): b[alpnEnc(j)+1+k] == supportedProtocols[j][k]
+//@   loop 0 invariant -1 <= $rangeindex && $rangeindex < n
+//@   loop 0 invariant arr(b) == arr(b0) && off(b) == off(b0) + alpnEnc($k) && len(b) == len(b0) - alpnEnc($k) && stringsLength == alpnEnc($k) - 6
+//@   loop 0 invariant b0[0]*256+b0[1] == e.codePoint
+//@   loop 0 invariant forall j in 0..$k: b0[alpnEnc(j)] == len(supportedProtocols[j]) % 256
+//@   loop 0 invariant forall j in 0..$k: forall k in 0..len(supportedProtocols[j]): b0[alpnEnc(j)+1+k] == supportedProtocols[j][k]
+//@   loop 0 invariant forall j in 0..$k: 6 <= alpnEnc(j) && alpnEnc(j+1) <= alpnEnc($k)
+
+//@ func (*ApplicationSettingsExtension).Len
+//@   property C08 C02
+//@   let n = len(e.SupportedProtocols)
+//@   requires e != nil
+//@   requires walk: alpnEncWalk(e.SupportedProtocols)
+//@   pure
+//@   ensures total: ret == alpnEnc(n)
+//@   ensures lower: ret >= 6 + n
+//@   ensures empty: n == 0 ==> ret == 6
+//@   ensures one: n == 1 ==> ret == 7 + len(e.SupportedProtocols[0])
+
+//@ func (*ApplicationSettingsExtension).Read
+//@   property C08 C02
+//@   let n = len(e.SupportedProtocols)
+//@   let L = alpnEnc(n)
+//@   let ps = e.SupportedProtocols
+//@   requires e != nil
+//@   requires walk: alpnEncWalk(e.SupportedProtocols)
+//@   modifies b[0..L], e.codePoint
+//@   note the code point is stored into the receiver on every call, also on the short-buffer path
+//@   ensures short: len(b) < L ==> ret0 == 0 && ret1 == io.ErrShortBuffer && unchanged(b)
+//@   ensures ok: len(b) >= L ==> ret0 == L && ret1 == io.EOF
+//@   ensures hdr: len(b) >= L ==> b[0] == 0x44 && b[1] == 0x69 && b[2]*256+b[3] == (L-4) % 65536 && b[4]*256+b[5] == (L-6) % 65536
+//@   ensures wire: len(b) >= L && L <= 65539 ==> b[2]*256+b[3] == L-4 && b[4]*256+b[5] == L-6
+//@   ensures entlen: len(b) >= L ==> forall j in 0..n: b[alpnEnc(j)] == len(ps[j]) % 256
+//@   ensures entbytes: len(b) >= L ==> forall j in 0..n: forall k in 0..len(ps[j]): b[alpnEnc(j)+1+k] == ps[j][k]
+
+//@ func (*ApplicationSettingsExtensionNew).Len
+//@   property C08 C02
+//@   let n = len(e.SupportedProtocols)
+//@   requires e != nil
+//@   requires walk: alpnEncWalk(e.SupportedProtocols)
+//@   pure
+//@   ensures total: ret == alpnEnc(n)
+//@   ensures lower: ret >= 6 + n
+//@   ensures empty: n == 0 ==> ret == 6
+//@   ensures one: n == 1 ==> ret == 7 + len(e.SupportedProtocols[0])
+
+//@ func (*ApplicationSettingsExtensionNew).Read
+//@   property C08 C02
+//@   let n = len(e.SupportedProtocols)
+//@   let L = alpnEnc(n)
+//@   let ps = e.SupportedProtocols
+//@   requires e != nil
+//@   requires walk: alpnEncWalk(e.SupportedProtocols)
+//@   modifies b[0..L], e.codePoint
+//@   note the code point is stored into the receiver on every call, also on the short-buffer path
+//@   ensures short: len(b) < L ==> ret0 == 0 && ret1 == io.ErrShortBuffer && unchanged(b)
+//@   ensures ok: len(b) >= L ==> ret0 == L && ret1 == io.EOF
+//@   ensures hdr: len(b) >= L ==> b[0] == 0x44 && b[1] == 0xcd && b[2]*256+b[3] == (L-4) % 65536 && b[4]*256+b[5] == (L-6) % 65536
+//@   ensures wire: len(b) >= L && L <= 65539 ==> b[2]*256+b[3] == L-4 && b[4]*256+b[5] == L-6
+//@   ensures entlen: len(b) >= L ==> forall j in 0..n: b[alpnEnc(j)] == len(ps[j]) % 256
+//@   ensures entbytes: len(b) >= L ==> forall j in 0..n: forall k in 0..len(ps[j]): b[alpnEnc(j)+1+k] == ps[j][k]
+
+// ---------------------------------------------------------------------------------------------
+// key_share (51): type, be16(2+m), be16(m), then per share be16(group), be16(len(data)), data,
+// where m = sum of (4+len(data)).  ksEnc(j) = offset of entry j in the extension.
+
+//@ uf ksEnc(Int) Int
+//@ spec ksEncWalk(ks) = ksEnc(0) == 6 && forall j in 0..len(ks): ksEnc(j+1) == ksEnc(j) + 4 + len(ks[j].Data)
+
+//@ func (*KeyShareExtension).keySharesLen
+//@   property C08 C02
+//@   let n = len(e.KeyShares)
+//@   requires e != nil
+//@   requires walk: ksEncWalk(e.KeyShares)
+//@   note walk: ksEnc is an arbitrary function satisfying the recurrence of the entry offsets (one always exists)
+//@   pure
+//@   ensures total: ret == ksEnc(n) - 6
+//@   ensures mono: forall j in 0..n: 6 <= ksEnc(j) && ksEnc(j+1) <= ksEnc(n)
+//@   ensures lower: ret >= 4 * n
+//@   loop 0 invariant -1 <= $rangeindex && $rangeindex < n
+//@   loop 0 invariant extLen == ksEnc($k) - 6 && extLen >= 4 * $k
+//@   loop 0 invariant forall j in 0..$k: 6 <= ksEnc(j) && ksEnc(j+1) <= ksEnc($k)
+
+//@ func (*KeyShareExtension).Len
+//@   property C08 C02
+//@   let n = len(e.KeyShares)
+//@   requires e != nil
+//@   requires walk: ksEncWalk(e.KeyShares)
+//@   pure
+//@   ensures total: ret == ksEnc(n)
+//@   ensures mono: forall j in 0..n: 6 <= ksEnc(j) && ksEnc(j+1) <= ksEnc(n)
+//@   ensures lower: ret >= 6 + 4 * n
+//@   ensures empty: n == 0 ==> ret == 6
+//@   ensures one: n == 1 ==> ret == 10 + len(e.KeyShares[0].Data)
+
+//@ func (*KeyShareExtension).Read
+//@   property C08 C02
+//@   let n = len(e.KeyShares)
+//@   let L = ksEnc(n)
+//@   let ks = e.KeyShares
+//@   requires e != nil
+//@   requires walk: ksEncWalk(e.KeyShares)
+//@   requires noalias: forall j in 0..n: arr(b) != arr(e.KeyShares[j].Data)
+//@   modifies b[0..L]
+//@   ensures short: len(b) < L ==> ret0 == 0 && ret1 == io.ErrShortBuffer && unchanged(b)
+//@   ensures ok: len(b) >= L ==> ret0 == L && ret1 == io.EOF
+//@   ensures hdr: len(b) >= L ==> b[0] == 0 && b[1] == 51 && b[2]*256+b[3] == (L-4) % 65536 && b[4]*256+b[5] == (L-6) % 65536
+//@   ensures wire: len(b) >= L && L <= 65539 ==> b[2]*256+b[3] == L-4 && b[4]*256+b[5] == L-6
+//@   ensures group: len(b) >= L ==> forall j in 0..n: b[ksEnc(j)]*256 + b[ksEnc(j)+1] == ks[j].Group
+//@   ensures entlen: len(b) >= L ==> forall j in 0..n: b[ksEnc(j)+2] == (len(ks[j].Data) / 256) % 256 && b[ksEnc(j)+3] == len(ks[j].Data) % 256
+//@   note entlen: the key_exchange length is uint16(len(Data)): it equals len(Data) only up to 65535 bytes (the code does not check)
+//@   ensures entbytes: len(b) >= L ==> forall j in 0..n: forall k in 0..len(ks[j].Data): b[ksEnc(j)+4+k] == ks[j].Data[k]
+//@   loop 0 invariant -1 <= $rangeindex && $rangeindex < n
+//@   loop 0 invariant i == ksEnc($k)
+//@   loop 0 invariant b[0] == 0 && b[1] == 51 && b[2]*256+b[3] == (L-4) % 65536 && b[4]*256+b[5] == (L-6) % 65536
+//@   loop 0 invariant forall j in 0..$k: b[ksEnc(j)]*256 + b[ksEnc(j)+1] == ks[j].Group
+//@   loop 0 invariant forall j in 0..$k: b[ksEnc(j)+2] == (len(ks[j].Data) / 256) % 256 && b[ksEnc(j)+3] == len(ks[j].Data) % 256
+//@   loop 0 invariant forall j in 0..$k: forall k in 0..len(ks[j].Data): b[ksEnc(j)+4+k] == ks[j].Data[k]
+//@   loop 0 invariant forall j in 0..$k: 6 <= ksEnc(j) && ksEnc(j+1) <= ksEnc($k)
+
+// ---------------------------------------------------------------------------------------------
+// pre_shared_key (41): type, be16(L-4), be16(identities length), per identity be16(len(label)) ++
+// label ++ be32(obfuscated_ticket_age), be16(binders length), per binder byte(len(binder)) ++ binder.
+// Nothing at all is encoded (length 0) when either list is empty.  The binders may have different
+// lengths.  pskId(j) = offset of identity j, pskBd(j) = offset of binder j; the binders start two
+// bytes (their length prefix) after the last identity.
+
+//@ uf pskId(Int) Int
+//@ uf pskBd(Int) Int
+//@ spec pskWalk(ids, bds) = pskId(0) == 6 && (forall j in 0..len(ids): pskId(j+1) == pskId(j) + 2 + len(ids[j].Label) + 4) && pskBd(0) == pskId(len(ids)) + 2 && (forall j in 0..len(bds): pskBd(j+1) == pskBd(j) + 1 + len(bds[j]))
+//@ spec pskNone(ids, bds) = len(ids) == 0 || len(bds) == 0
+
+//@ func pskExtLen
+//@   property C08 C02
+//@   let ni = len(identities)
+//@   let nb = len(binders)
+//@   requires walk: pskWalk(identities, binders)
+//@   note walk: pskId / pskBd are arbitrary functions satisfying the recurrences of the entry offsets (they always exist)
+//@   pure
+//@   ensures none: pskNone(identities, binders) ==> ret == 0
+//@   ensures total: !pskNone(identities, binders) ==> ret == pskBd(nb)
+//@   ensures lower: !pskNone(identities, binders) ==> ret >= 8 + 6 * ni + nb
+//@   ensures monoid: !pskNone(identities, binders) ==> forall j in 0..ni: 6 <= pskId(j) && pskId(j+1) <= pskId(ni)
+//@   ensures monobd: !pskNone(identities, binders) ==> forall j in 0..nb: pskBd(0) <= pskBd(j) && pskBd(j+1) <= pskBd(nb)
+//@   loop 0 invariant -1 <= $rangeindex && $rangeindex < ni
+//@   loop 0 invariant length == pskId($k) && length >= 6 + 6 * $k
+//@   loop 0 invariant forall j in 0..$k: 6 <= pskId(j) && pskId(j+1) <= pskId($k)
+//@   loop 1 invariant -1 <= $rangeindex && $rangeindex < nb
+//@   loop 1 invariant length == pskBd($k) && length >= 8 + 6 * ni + $k
+//@   loop 1 invariant forall j in 0..$k: pskBd(0) <= pskBd(j) && pskBd(j+1) <= pskBd($k)
+
+//@ spec be32is(b, p, x) = b[p] == (x / 16777216) % 256 && b[p+1] == (x / 65536) % 256 && b[p+2] == (x / 256) % 256 && b[p+3] == x % 256
+
+//@ func readPskIntoBytes
+//@   property C08 C02
+//@   let ni = len(identities)
+//@   let nb = len(binders)
+//@   let L = pskBd(nb)
+//@   let some = !pskNone(identities, binders)
+//@   requires walk: pskWalk(identities, binders)
+//@   requires noalias_id: forall j in 0..ni: arr(b) != arr(identities[j].Label)
+//@   requires noalias_bd: forall j in 0..nb: arr(b) != arr(binders[j])
+//@   modifies b[0..L]
+//@   ensures none: !some ==> ret0 == 0 && ret1 == io.EOF && unchanged(b)
+//@   ensures short: some && len(b) < L ==> ret0 == 0 && ret1 == io.ErrShortBuffer && unchanged(b)
+//@   ensures ok: some && len(b) >= L ==> ret0 == L && ret1 == io.EOF
+//@   ensures hdr: some && len(b) >= L ==> b[0] == 0 && b[1] == 41 && b[2]*256+b[3] == (L-4) % 65536 && b[4]*256+b[5] == (pskId(ni)-6) % 65536
+//@   ensures bdhdr: some && len(b) >= L ==> b[pskId(ni)]*256 + b[pskId(ni)+1] == (L - pskBd(0)) % 65536
+//@   ensures wire: some && len(b) >= L && L <= 65539 ==> b[2]*256+b[3] == L-4 && b[4]*256+b[5] == pskId(ni)-6 && b[pskId(ni)]*256 + b[pskId(ni)+1] == L - pskBd(0)
+//@   ensures idlen: some && len(b) >= L ==> forall j in 0..ni: b[pskId(j)] == (len(identities[j].Label) / 256) % 256 && b[pskId(j)+1] == len(identities[j].Label) % 256
+//@   ensures idbytes: some && len(b) >= L ==> forall j in 0..ni: forall k in 0..len(identities[j].Label): b[pskId(j)+2+k] == identities[j].Label[k]
+//@   ensures idage: some && len(b) >= L ==> forall j in 0..ni: be32is(b, pskId(j)+2+len(identities[j].Label), identities[j].ObfuscatedTicketAge)
+//@   ensures bdlen: some && len(b) >= L ==> forall j in 0..nb: b[pskBd(j)] == len(binders[j]) % 256
+//@   note bdlen: the one-byte binder length is byte(len(binder)): it equals len(binder) only up to 255 bytes (readPskIntoBytes does not check)
+//@   ensures bdbytes: some && len(b) >= L ==> forall j in 0..nb: forall k in 0..len(binders[j]): b[pskBd(j)+1+k] == binders[j][k]
+//@   note loop numbering: govc orders loops by the smallest source position of any instruction in the loop, and the phi of `offset` carries the position of its declaration (line 217), so the LAST loop (binders, re-assigns offset) is "loop 2" and the bindersLength loop is "loop 3"
+//@   loop 0 invariant -1 <= $rangeindex && $rangeindex < ni
+//@   loop 0 invariant identitiesLength == pskId($k) - 6
+//@   loop 1 invariant -1 <= $rangeindex && $rangeindex < ni
+//@   loop 1 invariant offset == pskId($k)
+//@   loop 1 invariant forall j in 0..$k: 6 <= pskId(j) && pskId(j) + 6 + len(identities[j].Label) <= offset
+//@   loop 1 invariant b[0] == 0 && b[1] == 41 && b[2]*256+b[3] == (L-4) % 65536 && b[4]*256+b[5] == (pskId(ni)-6) % 65536
+//@   loop 1 invariant forall j in 0..$k: b[pskId(j)] == (len(identities[j].Label) / 256) % 256 && b[pskId(j)+1] == len(identities[j].Label) % 256
+//@   loop 1 invariant forall j in 0..$k: forall k in 0..len(identities[j].Label): b[pskId(j)+2+k] == identities[j].Label[k]
+//@   loop 1 invariant forall j in 0..$k: b[pskId(j)+2+len(identities[j].Label)] == (identities[j].ObfuscatedTicketAge / 16777216) % 256
+//@   loop 1 invariant forall j in 0..$k: b[pskId(j)+3+len(identities[j].Label)] == (identities[j].ObfuscatedTicketAge / 65536) % 256
+//@   loop 1 invariant forall j in 0..$k: b[pskId(j)+4+len(identities[j].Label)] == (identities[j].ObfuscatedTicketAge / 256) % 256
+//@   loop 1 invariant forall j in 0..$k: b[pskId(j)+5+len(identities[j].Label)] == identities[j].ObfuscatedTicketAge % 256
+//@   loop 3 invariant -1 <= $rangeindex && $rangeindex < nb
+//@   loop 3 invariant bindersLength == pskBd($k) - pskBd(0)
+//@   loop 2 invariant -1 <= $rangeindex && $rangeindex < nb
+//@   loop 2 invariant offset == pskBd($k)
+//@   loop 2 invariant forall j in 0..$k: pskBd(0) <= pskBd(j) && pskBd(j) + 1 + len(binders[j]) <= offset
+//@   loop 2 invariant forall j in 0..ni: 6 <= pskId(j) && pskId(j) + 6 + len(identities[j].Label) <= pskId(ni)
+//@   loop 2 invariant b[0] == 0 && b[1] == 41 && b[2]*256+b[3] == (L-4) % 65536 && b[4]*256+b[5] == (pskId(ni)-6) % 65536
+//@   loop 2 invariant b[pskId(ni)]*256 + b[pskId(ni)+1] == (L - pskBd(0)) % 65536
+//@   loop 2 invariant forall j in 0..ni: b[pskId(j)] == (len(identities[j].Label) / 256) % 256 && b[pskId(j)+1] == len(identities[j].Label) % 256
+//@   loop 2 invariant forall j in 0..ni: forall k in 0..len(identities[j].Label): b[pskId(j)+2+k] == identities[j].Label[k]
+//@   loop 2 invariant forall j in 0..ni: b[pskId(j)+2+len(identities[j].Label)] == (identities[j].ObfuscatedTicketAge / 16777216) % 256
+//@   loop 2 invariant forall j in 0..ni: b[pskId(j)+3+len(identities[j].Label)] == (identities[j].ObfuscatedTicketAge / 65536) % 256
+//@   loop 2 invariant forall j in 0..ni: b[pskId(j)+4+len(identities[j].Label)] == (identities[j].ObfuscatedTicketAge / 256) % 256
+//@   loop 2 invariant forall j in 0..ni: b[pskId(j)+5+len(identities[j].Label)] == identities[j].ObfuscatedTicketAge % 256
+//@   loop 2 invariant forall j in 0..$k: b[pskBd(j)] == len(binders[j]) % 256
+//@   loop 2 invariant forall j in 0..$k: forall k in 0..len(binders[j]): b[pskBd(j)+1+k] == binders[j][k]
+
+// FakePreSharedKeyExtension: Len() is pskExtLen of the two lists; Read() refuses the empty extension
+// unless OmitEmptyPsk is set, refuses (before writing anything) every binder whose length is not the
+// digest size of a TLS 1.3 suite (validHashLen), and otherwise is readPskIntoBytes.
+// anyTrue is generic and higher order: its meaning for THIS predicate (Read$1: len(binder) == *valid,
+// verified below) is assumed at the call site (anchor `anytrue`), as in verif_contracts_session.go.
+//@ spec pskValidBinder(l) = exists i in 0..len(validHashLen): validHashLen[i] == l
+
+//@ func (*FakePreSharedKeyExtension).Len
+//@   property C08 C02
+//@   requires e != nil
+//@   requires walk: pskWalk(e.Identities, e.Binders)
+//@   pure
+//@   ensures none: pskNone(e.Identities, e.Binders) ==> ret == 0
+//@   ensures total: !pskNone(e.Identities, e.Binders) ==> ret == pskBd(len(e.Binders)) && ret >= 8 + 6 * len(e.Identities) + len(e.Binders)
+
+//@ func (*FakePreSharedKeyExtension).Read$1
+//@   property C08 C02
+//@   requires b != nil && valid != nil
+//@   pure
+//@   ensures ret <==> len(*b) == *valid
+
+//@ func (*FakePreSharedKeyExtension).Read
+//@   property C08 C02
+//@   let ids = e.Identities
+//@   let bds = e.Binders
+//@   let ni = len(e.Identities)
+//@   let nb = len(e.Binders)
+//@   let L = pskBd(nb)
+//@   let some = !pskNone(e.Identities, e.Binders)
+//@   let valid = forall j in 0..len(e.Binders): pskValidBinder(len(e.Binders[j]))
+//@   requires e != nil
+//@   requires walk: pskWalk(e.Identities, e.Binders)
+//@   requires noalias_id: forall j in 0..ni: arr(b) != arr(e.Identities[j].Label)
+//@   requires noalias_bd: forall j in 0..nb: arr(b) != arr(e.Binders[j])
+//@   assume-pure anyTrue
+//@   at after call anyTrue#0: assume anytrue: res <==> pskValidBinder(len(e.Binders[$rangeindex+1]))
+//@   modifies b[0..L]
+//@   ensures empty: !some && !e.OmitEmptyPsk ==> ret0 == 0 && ret1 == ErrEmptyPsk && unchanged(b)
+//@   ensures omitted: !some && e.OmitEmptyPsk && valid ==> ret0 == 0 && ret1 == io.EOF && unchanged(b)
+//@   ensures badbinder: (some || e.OmitEmptyPsk) && !valid ==> ret0 == 0 && ret1 != nil && unchanged(b)
+//@   note badbinder: the binders are validated even when the extension is omitted because Identities is empty
+//@   ensures short: some && valid && len(b) < L ==> ret0 == 0 && ret1 == io.ErrShortBuffer && unchanged(b)
+//@   ensures ok: some && valid && len(b) >= L ==> ret0 == L && ret1 == io.EOF
+//@   ensures hdr: some && valid && len(b) >= L ==> b[0] == 0 && b[1] == 41 && b[2]*256+b[3] == (L-4) % 65536 && b[4]*256+b[5] == (pskId(ni)-6) % 65536
+//@   ensures bdhdr: some && valid && len(b) >= L ==> b[pskId(ni)]*256 + b[pskId(ni)+1] == (L - pskBd(0)) % 65536
+//@   ensures wire: some && valid && len(b) >= L && L <= 65539 ==> b[2]*256+b[3] == L-4 && b[4]*256+b[5] == pskId(ni)-6 && b[pskId(ni)]*256 + b[pskId(ni)+1] == L - pskBd(0)
+//@   ensures idlen: some && valid && len(b) >= L ==> forall j in 0..ni: b[pskId(j)] == (len(ids[j].Label) / 256) % 256 && b[pskId(j)+1] == len(ids[j].Label) % 256
+//@   ensures idbytes: some && valid && len(b) >= L ==> forall j in 0..ni: forall k in 0..len(ids[j].Label): b[pskId(j)+2+k] == ids[j].Label[k]
+//@   ensures idage: some && valid && len(b) >= L ==> forall j in 0..ni: be32is(b, pskId(j)+2+len(ids[j].Label), ids[j].ObfuscatedTicketAge)
+//@   ensures bdlen: some && valid && len(b) >= L ==> forall j in 0..nb: b[pskBd(j)] == len(bds[j]) % 256
+//@   ensures bdbytes: some && valid && len(b) >= L ==> forall j in 0..nb: forall k in 0..len(bds[j]): b[pskBd(j)+1+k] == bds[j][k]
+//@   loop 0 invariant -1 <= $rangeindex && $rangeindex < nb
+//@   loop 0 invariant forall j in 0..$k: pskValidBinder(len(e.Binders[j]))
+
+// UtlsPreSharedKeyExtension: Len() is 0 without a session, else pskExtLen of the two lists; Read() writes nothing
+// when Len() is 0 (ErrEmptyPsk unless OmitEmptyPsk is set) and otherwise is readPskIntoBytes of the lists.  The C08
+// clause "Len() equals the number of bytes Read() writes" is len_read.
+// History: before fix 0be6a29 Len() cached its first value forever and Read() ignored the missing session, so the two
+// disagreed for OmitEmptyPsk && Session == nil with non-empty lists and after any change of the lists.
+//@ spec pskLenOf(ids, bds) = ite(pskNone(ids, bds), 0, pskBd(len(bds)))
+
+//@ func (*UtlsPreSharedKeyExtension).Len
+//@   property C08 C02
+//@   requires e != nil
+//@   requires walk: pskWalk(e.Identities, e.Binders)
+//@   pure
+//@   ensures nosession: e.Session == nil ==> ret == 0
+//@   ensures computed: e.Session != nil ==> ret == pskLenOf(e.Identities, e.Binders)
+
+//@ func (*UtlsPreSharedKeyExtension).Read
+//@   property C08 C02
+//@   let ids = e.Identities
+//@   let bds = e.Binders
+//@   let ni = len(e.Identities)
+//@   let nb = len(e.Binders)
+//@   let L = pskBd(nb)
+//@   let len0 = ite(e.Session == nil, 0, pskLenOf(e.Identities, e.Binders))
+//@   let some = len0 != 0
+//@   let refuse = !e.OmitEmptyPsk && len0 == 0
+//@   requires e != nil
+//@   requires walk: pskWalk(e.Identities, e.Binders)
+//@   requires noalias_id: forall j in 0..ni: arr(b) != arr(e.Identities[j].Label)
+//@   requires noalias_bd: forall j in 0..nb: arr(b) != arr(e.Binders[j])
+//@   modifies b[0..L]
+//@   note len0 is the value Len() returns in the entry state
+//@   ensures empty: refuse ==> ret0 == 0 && ret1 == ErrEmptyPsk && unchanged(b)
+//@   ensures omitted: !refuse && !some ==> ret0 == 0 && ret1 == io.EOF && unchanged(b)
+//@   ensures short: !refuse && some && len(b) < L ==> ret0 == 0 && ret1 == io.ErrShortBuffer && unchanged(b)
+//@   ensures ok: !refuse && some && len(b) >= L ==> ret0 == L && ret1 == io.EOF
+//@   ensures len_read: ret1 == io.EOF ==> ret0 == len0
+//@   ensures written_only_eof: ret1 != io.EOF ==> ret0 == 0 && unchanged(b)
+//@   ensures hdr: !refuse && some && len(b) >= L ==> b[0] == 0 && b[1] == 41 && b[2]*256+b[3] == (L-4) % 65536 && b[4]*256+b[5] == (pskId(ni)-6) % 65536
+//@   ensures bdhdr: !refuse && some && len(b) >= L ==> b[pskId(ni)]*256 + b[pskId(ni)+1] == (L - pskBd(0)) % 65536
+//@   ensures wire: !refuse && some && len(b) >= L && L <= 65539 ==> b[2]*256+b[3] == L-4 && b[4]*256+b[5] == pskId(ni)-6 && b[pskId(ni)]*256 + b[pskId(ni)+1] == L - pskBd(0)
+//@   ensures idlen: !refuse && some && len(b) >= L ==> forall j in 0..ni: b[pskId(j)] == (len(ids[j].Label) / 256) % 256 && b[pskId(j)+1] == len(ids[j].Label) % 256
+//@   ensures idbytes: !refuse && some && len(b) >= L ==> forall j in 0..ni: forall k in 0..len(ids[j].Label): b[pskId(j)+2+k] == ids[j].Label[k]
+//@   ensures idage: !refuse && some && len(b) >= L ==> forall j in 0..ni: be32is(b, pskId(j)+2+len(ids[j].Label), ids[j].ObfuscatedTicketAge)
+//@   ensures bdlen: !refuse && some && len(b) >= L ==> forall j in 0..nb: b[pskBd(j)] == len(bds[j]) % 256
+//@   ensures bdbytes: !refuse && some && len(b) >= L ==> forall j in 0..nb: forall k in 0..len(bds[j]): b[pskBd(j)+1+k] == bds[j][k]
+
+// ---------------------------------------------------------------------------------------------
+// quic_transport_parameters (57): type, be16(m), the m bytes of TransportParameters.Marshal()
+// (verified in verif_contracts_quic.go; tppos is its walk function).  The marshalled body is computed
+// by the first Len() and cached in e.marshalResult; Len() and Read() both use the cache, so they agree
+// with each other (C08) whether or not the cache is still the encoding of TransportParameters.
+
+//@ spec qtpReady(e) = e.marshalResult != nil || ((forall j in 0..len(e.TransportParameters): e.TransportParameters[j] != nil) && (forall j in 0..len(e.TransportParameters): 0 <= tpid(val(e.TransportParameters[j])) && tpid(val(e.TransportParameters[j])) <= 4611686018427387903 && tpvlen(val(e.TransportParameters[j])) <= 4611686018427387903) && tppos(0) == 0 && (forall j in 0..len(e.TransportParameters): tppos(j+1) == tppos(j) + tphdr(e.TransportParameters[j]) + tpvlen(val(e.TransportParameters[j]))))
+
+//@ func (*QUICTransportParametersExtension).Len
+//@   property C08 C02
+//@   let n = len(e.TransportParameters)
+//@   requires e != nil
+//@   requires ready: qtpReady(e)
+//@   note ready: with an empty cache the preconditions of TransportParameters.Marshal (non-nil parameters, ids and lengths below 2^62, tppos is the walk of the entry offsets)
+//@   modifies e.marshalResult, ghostall(tpstate)
+//@   note ghostall(tpstate): the cached state the transport parameters may update in ID()/Value() (frame of TransportParameters.Marshal)
+//@   ensures cached: old(e.marshalResult != nil) ==> e.marshalResult == old(e.marshalResult) && ret == 4 + len(e.marshalResult)
+//@   ensures computed: old(e.marshalResult == nil) ==> ret == 4 + tppos(n) && len(e.marshalResult) == tppos(n)
+//@   ensures total: ret == 4 + len(e.marshalResult)
+//@   ensures computed_fresh: old(e.marshalResult == nil) ==> isnil(e.marshalResult) || fresh(e.marshalResult)
+
+//@ func (*QUICTransportParametersExtension).Read
+//@   property C08 C02
+//@   let n = len(e.TransportParameters)
+//@   let m = ite(e.marshalResult != nil, len(e.marshalResult), tppos(n))
+//@   requires e != nil
+//@   requires ready: qtpReady(e)
+//@   requires noalias: arr(b) != arr(e.marshalResult)
+//@   modifies b[0..4+m], e.marshalResult, ghostall(tpstate)
+//@   ensures short: len(b) < 4+m ==> ret0 == 0 && ret1 == io.ErrShortBuffer && unchanged(b)
+//@   ensures ok: len(b) >= 4+m ==> ret0 == 4+m && ret1 == io.EOF
+//@   ensures hdr: len(b) >= 4+m ==> b[0] == 0 && b[1] == 57 && b[2]*256+b[3] == m % 65536
+//@   ensures wire: len(b) >= 4+m && m <= 65535 ==> b[2]*256+b[3] == m
+//@   ensures body: len(b) >= 4+m ==> len(e.marshalResult) == m && forall j in 0..m: b[4+j] == e.marshalResult[j]
+//@   ensures cache: old(e.marshalResult != nil) ==> e.marshalResult == old(e.marshalResult)
+
+// =============================================================================================
+// PART 2: the marshal chain.
+
+// (*UConn).MarshalClientHelloNoECH (C05, C02, C01).  bufio / encoding/binary / bytes are opaque (trusted frame-only
+// contracts in /verif/contracts/trusted/marshal.vc); extlen(x) is the value extension object x returns from Len()
+// (trusted interface contract TLSExtension.Len).  extSum is the walk function of the running sum of the Len()
+// values of the non-padding extensions.
+//   multiple : a second *UtlsPaddingExtension in uconn.Extensions gives an error;
+//   upd_*    : Update of the (single) padding extension is called iff there is one, exactly once (one call site,
+//              outside every loop), with headerLength + 4 + (sum of Len() of the other extensions) + 2;
+//   raw_*    : on a nil return hello.Raw is what helloBuffer.Bytes() returned and its length is 4 + helloLen;
+//   trunc_*  : the five narrowing conversions of the length prefixes lose no bits on a nil return (C02: a spec that
+//              cannot be encoded gives an error instead of malformed bytes).  Stated as postconditions on the entry
+//              state for the case without a padding extension (with one, Update havocs the heap).  `check notrunc` is
+//              NOT used: it also flags the two intended truncations byte(helloLen>>8) and byte(helloLen).
+//              History: before fix 3b4694d nothing was checked (two 40000-byte GenericExtensions gave an extensions
+//              length prefix of 14472 for an 80008-byte body, a 300-byte SessionId a length byte of 44, nil error).
+// No modifies clause: (*UtlsPaddingExtension).Update calls the user-supplied GetPaddingLen (unknown effects).
+//@ uf extSum(Int) Int
+//@ spec ispad(x) = istype(x, *UtlsPaddingExtension)
+//@ spec extSumWalk(xs) = extSum(0) == 0 && forall j in 0..len(xs): extSum(j+1) == extSum(j) + ite(ispad(xs[j]), 0, extlen(val(xs[j])))
+
+//@ func (*UConn).MarshalClientHelloNoECH
+//@   property C05 C02 C01
+//@   let hello = uconn.HandshakeState.Hello
+//@   let exts = uconn.Extensions
+//@   let n = len(uconn.Extensions)
+//@   let hdr = 2 + 32 + 1 + len(uconn.HandshakeState.Hello.SessionId) + 2 + 2*len(uconn.HandshakeState.Hello.CipherSuites) + 1 + len(uconn.HandshakeState.Hello.CompressionMethods)
+//@   let haspad = exists j in 0..len(uconn.Extensions): ispad(uconn.Extensions[j])
+//@   let multi = exists i in 0..len(uconn.Extensions): exists j in i+1..len(uconn.Extensions): ispad(uconn.Extensions[i]) && ispad(uconn.Extensions[j])
+//@   requires uconn != nil && uconn.HandshakeState.Hello != nil
+//@   requires nonnil: forall j in 0..n: uconn.Extensions[j] != nil
+//@   requires padnonnil: forall j in 0..n: ispad(uconn.Extensions[j]) ==> uconn.Extensions[j].(*UtlsPaddingExtension) != nil
+//@   note nonnil, padnonnil: a nil extension (or a nil *UtlsPaddingExtension inside the interface) makes the marshaller panic with a nil dereference
+//@   requires walk: extSumWalk(uconn.Extensions)
+//@   note walk: extSum is an arbitrary function satisfying the recurrence of the running sum (one always exists)
+//@   ensures multiple: multi ==> ret != nil
+//@   ensures upd_iff: called(Update, 0) <==> haspad && !multi
+//@   at before call Update#0: assert upd_arg: arg1 == hdr + 4 + extSum(n) + 2
+//@   at before call Update#0: assert upd_recv: arg0 != nil && exists j in 0..n: ispad(exts[j]) && exts[j].(*UtlsPaddingExtension) == arg0
+//@   at before call Bytes#0: assert raw_len: callres(bytes.Len, 0) == 4 + helloLen
+//@   ensures raw_bytes: ret == nil ==> hello.Raw == callres(Bytes, 0) && len(hello.Raw) == callres(bytes.Len, 0)
+//@   ensures raw_nopad: ret == nil && !haspad ==> len(hello.Raw) == 4 + hdr + ite(n > 0, 2 + extSum(n), 0)
+//@   loop 0 invariant -1 <= $rangeindex && $rangeindex < n
+//@   loop 0 invariant extensionsLen == extSum($k)
+//@   loop 0 invariant paddingExt == nil <==> forall j in 0..$k: !ispad(exts[j])
+//@   loop 0 invariant paddingExt != nil ==> exists j in 0..$k: ispad(exts[j]) && exts[j].(*UtlsPaddingExtension) == paddingExt
+//@   loop 0 invariant forall i in 0..$k: forall j in i+1..$k: !(ispad(exts[i]) && ispad(exts[j]))
+//@   loop 1 invariant -1 <= $rangeindex
+//@   loop 2 invariant -1 <= $rangeindex
+//@   ensures trunc_sessionid: ret == nil && !haspad ==> len(old(hello.SessionId)) <= 255
+//@   ensures trunc_ciphersuites: ret == nil && !haspad ==> 2 * len(old(hello.CipherSuites)) <= 65535
+//@   ensures trunc_compression: ret == nil && !haspad ==> len(old(hello.CompressionMethods)) <= 255
+//@   ensures trunc_extensions: ret == nil && !haspad && n > 0 ==> extSum(n) <= 65535
+//@   ensures trunc_hellolen: ret == nil && !haspad ==> hdr + ite(n > 0, 2 + extSum(n), 0) <= 16777215
+
+// (*UConn).MarshalClientHello (C01, C02): without an ECH config list it is exactly MarshalClientHelloNoECH
+// (same error).  On the ECH path the error of computeAndUpdateOuterECHExtension is returned (ech_error_returned;
+// before fix 65e8d74 it was dropped, leaving a stale Hello.Raw behind a nil error).
+// makeClientHello (handshake_client.go, upstream code) is NOT verified: assumed are only that a nil error comes with a
+// non-nil hello, and with an ECH context when an ECH config list is set (handshake_client.go:186-228), and its
+// frame for a non-QUIC connection: it fills freshly allocated objects and advances the random source (as its
+// verified sibling makeClientHelloForApplyPreset, verif_contracts_preset.go).  With c.quic != nil it blocks in
+// quicGetTransportParameters and hands control to the QUIC user: excluded by the precondition.
+//@ trusted func (*Conn).makeClientHello
+//@   requires c != nil && c.config != nil
+//@   requires noquic: c.quic == nil
+//@   modifies ghostall(rdpos)
+//@   ensures ok: ret3 == nil ==> ret0 != nil && fresh(ret0) && (c.config.EncryptedClientHelloConfigList != nil ==> ret2 != nil && fresh(ret2))
+//@   ensures err: ret3 != nil ==> ret0 == nil && ret1 == nil && ret2 == nil
+
+//@ func (*UConn).MarshalClientHello
+//@   property C01 C02
+//@   let ech = len(uconn.config.EncryptedClientHelloConfigList) > 0
+//@   requires uconn != nil && uconn.Conn != nil && uconn.config != nil && uconn.HandshakeState.Hello != nil
+//@   requires noquic: uconn.quic == nil
+//@   note noquic: precondition of the assumed contract of makeClientHello (only needed on the ECH path)
+//@   requires nonnil: forall j in 0..len(uconn.Extensions): uconn.Extensions[j] != nil
+//@   requires padnonnil: forall j in 0..len(uconn.Extensions): ispad(uconn.Extensions[j]) ==> uconn.Extensions[j].(*UtlsPaddingExtension) != nil
+//@   requires walk: extSumWalk(uconn.Extensions)
+//@   note nonnil, padnonnil, walk: the preconditions of MarshalClientHelloNoECH
+//@   ensures noech_delegates: !ech ==> called(MarshalClientHelloNoECH, 0) && ret == callres(MarshalClientHelloNoECH, 0) && !called(makeClientHello, 0)
+//@   ensures ech_path: ech ==> called(makeClientHello, 0) && !called(MarshalClientHelloNoECH, 0)
+//@   ensures ech_hello_error: ech && ret == nil ==> called(computeAndUpdateOuterECHExtension, 0)
+//@   ensures ech_error_returned: ech && called(computeAndUpdateOuterECHExtension, 0) && callres(computeAndUpdateOuterECHExtension, 0) != nil ==> ret != nil
+
+// (*Conn).writeHandshakeRecord (C01, C05): the record written is the marshalled message, and the transcript (when
+// there is one) is fed the very same slice.  `data` is the local bound to the first result of msg.marshal()
+// (callres() has no projection for two-result calls).  marshal / Write / writeRecordLocked are opaque here, so
+// the statement is about WHICH slice is passed (identity: array, offset, length), not about its contents: that
+// transcript.Write leaves its argument unmodified is the io.Writer convention, not checked.
+//@ func (*Conn).writeHandshakeRecord
+//@   property C01 C05
+//@   requires c != nil && msg != nil
+//@   at before call writeRecordLocked#0: assert rec_bytes: arg0 == c && arg1 == recordTypeHandshake && arg2 == data
+//@   at before call Write#0: assert hash_bytes: arg0 == transcript && arg1 == data
+//@   ensures marshalled: called(marshal, 0) && callarg(marshal, 0, 0) == msg
+//@   ensures hashed: called(writeRecordLocked, 0) && transcript != nil ==> called(Write, 0) && callarg(Write, 0, 1) == callarg(writeRecordLocked, 0, 2)
+//@   ensures nothashed: transcript == nil ==> !called(Write, 0)
+//@   ensures hash_only_sent: called(Write, 0) ==> called(writeRecordLocked, 0)
+//@   ensures onerr: !called(writeRecordLocked, 0) ==> ret0 == 0 && ret1 != nil
